@@ -22,7 +22,9 @@ VARIABLES hist, cat
 
 UInit == step = 1 /\ hist = <<>> /\ cat = RefNum
 
-\* a helper is handed catalogue constants and returns a NEW value: the catalogue itself does not change
+\* a helper is handed catalogue constants and returns a NEW value: the catalogue itself does not change.
+\* The helper "long_session" stands for a long interactive session (the harness creates 40 000 fresh
+\* quantities): however many quantities are created after them, the constants keep their values.
 HelperEffect(h, c) == c
 
 Use(h) == /\ Len(hist) < MaxHist
